@@ -21,9 +21,13 @@ Oracle (from the statement, independent of the code under test):
               namespace, '*|name' only for any; one URI per prefix) and parsed again under the namespaces the rule carries - whatever
               happens to the sheet it came from afterwards
 
-Provenance axis (ROUTES): a selector can enter an attached rule with the sheet text or through the DOM (rule.selectorText,
-selectorList.selectorText, Selector.selectorText, selectorList.appendSelector, rule.cssText). A seed may name a route as sixth element: every
-style rule of sheet A (also inside @media) is then re-written through that route with its own text before the history starts.
+Provenance axis (ROUTES x FORMS): a selector can enter an attached rule with the sheet text or through the DOM (rule.selectorText,
+selectorList.selectorText, Selector.selectorText, selectorList.appendSelector / append, item assignment selectorList[i] = text, rule.cssText),
+and every setter that documents it takes the text alone or the pair (text, {prefix: URI}) - on an attached object the sheet's own
+@namespace rules decide, whatever the caller's dictionary says (PRIVATE binds every prefix of the pool to ANOTHER URI than any seed sheet).
+A seed may name a route (+ 'ns' for the pair form) as sixth element: every style rule of sheet A (also inside @media) is then re-written
+through that route with its own text before the history starts. The pool 'forms' has every route x form x selector as an operation
+of the history itself (next to the mapping edits), so a write through any route happens in every reachable namespace state.
 """
 import logging
 import re
@@ -72,30 +76,74 @@ SEEDS = [
 ]
 
 # how a selector gets into an attached rule through the DOM (the text route is the seed text itself)
-ROUTES = ['rule.selectorText', 'selectorList.selectorText', 'Selector.selectorText', 'appendSelector', 'rule.cssText']
+ROUTES = ['rule.selectorText', 'selectorList.selectorText', 'Selector.selectorText', 'appendSelector', 'selectorList[i]', 'rule.cssText']
+# argument forms: the text alone, or the documented pair (text, {prefix: URI}). Item assignment documents the text (or a Selector) only.
+PAIR_ROUTES = [r for r in ROUTES if r != 'selectorList[i]']
+# the caller's dictionary of the pair form: every prefix of the pool (and the default) bound to another URI than in any seed sheet, plus
+# a prefix no sheet declares - "given namespaces are ignored if this object is attached to a CSSStyleSheet"
+PRIVATE = {'': 'urn:c', 'p': 'urn:b', 'Q': 'urn:a', 'r': 'urn:c'}
+VIAS = list(ROUTES) + [r + '+ns' for r in PAIR_ROUTES]
 
 
 def via_seeds(seeds):
-    """every seed x every DOM route"""
-    return [tuple(s[:5]) + (via,) for s in seeds for via in ROUTES]
+    """every seed x every DOM route x every argument form"""
+    return [tuple(s[:5]) + (via,) for s in seeds for via in VIAS]
 
 
 def rewrite(rule, via):
-    """write the selectors of an attached style rule once more, with their own text, through the DOM route `via`"""
-    if via == 'rule.selectorText':
-        rule.selectorText = rule.selectorText
-    elif via == 'selectorList.selectorText':
-        rule.selectorList.selectorText = rule.selectorText
-    elif via == 'Selector.selectorText':
+    """write the selectors of an attached style rule once more, with their own text, through the DOM route `via` ('+ns': as the pair
+    (text, PRIVATE))"""
+    route, _, form = via.partition('+')
+
+    def arg(text):
+        return (text, dict(PRIVATE)) if form == 'ns' else text
+    if route == 'rule.selectorText':
+        rule.selectorText = arg(rule.selectorText)
+    elif route == 'selectorList.selectorText':
+        rule.selectorList.selectorText = arg(rule.selectorText)
+    elif route == 'Selector.selectorText':
         for sel in list(rule.selectorList):
-            sel.selectorText = sel.selectorText
-    elif via == 'appendSelector':
+            sel.selectorText = arg(sel.selectorText)
+    elif route == 'appendSelector':
         for text in [sel.selectorText for sel in rule.selectorList]:
-            rule.selectorList.appendSelector(text)      # an equal selector is replaced by the new object
-    elif via == 'rule.cssText':
-        rule.cssText = rule.cssText
+            rule.selectorList.appendSelector(arg(text))      # an equal selector is replaced by the new object
+    elif route == 'selectorList[i]':
+        for i, text in enumerate([sel.selectorText for sel in rule.selectorList]):
+            rule.selectorList[i] = arg(text)
+    elif route == 'rule.cssText':
+        rule.cssText = arg(rule.cssText)
     else:
         raise KeyError(via)
+
+
+# the pool 'forms': every way of writing a selector into the first style rule of sheet A as an operation of the history
+WRITE_ROUTES = ['rule.selectorText', 'selectorList.selectorText', 'Selector.selectorText', 'appendSelector', 'append', 'selectorList[i]', 'rule.cssText']
+WRITE_FORMS = [(r, 'text') for r in WRITE_ROUTES] + [(r, 'ns') for r in WRITE_ROUTES if r != 'selectorList[i]']
+FORM_SEL = ['p|e', 'Q|f', 'e', 'e[p|a]']
+WHOLE = ('rule.selectorText', 'selectorList.selectorText', 'rule.cssText')      # routes that replace the whole selector list
+FIRST = ('Selector.selectorText', 'selectorList[i]')                            # routes that replace the first selector
+
+
+def write(rule, route, form, text):
+    """write selector `text` into the attached style rule through `route`, as the text alone or as the pair (text, PRIVATE)"""
+    body = ' { left: 0 }' if route == 'rule.cssText' else ''
+    arg = (text + body, dict(PRIVATE)) if form == 'ns' else text + body
+    if route == 'rule.selectorText':
+        rule.selectorText = arg
+    elif route == 'selectorList.selectorText':
+        rule.selectorList.selectorText = arg
+    elif route == 'Selector.selectorText':
+        rule.selectorList[0].selectorText = arg
+    elif route == 'appendSelector':
+        rule.selectorList.appendSelector(arg)
+    elif route == 'append':
+        rule.selectorList.append(arg)
+    elif route == 'selectorList[i]':
+        rule.selectorList[0] = arg
+    elif route == 'rule.cssText':
+        rule.cssText = arg
+    else:
+        raise KeyError(route)
 
 
 def _nofetch(url):
@@ -306,7 +354,7 @@ class State:
 
 
 class Model:
-    """pool = 'core' or 'full'"""
+    """pool = 'core', 'full' or 'forms' (mapping edits + every selector-writing route x argument form)"""
 
     def __init__(self, pool):
         self.pool = pool
@@ -387,6 +435,22 @@ class Model:
         after_ns = max([i for i, r in enumerate(A.cssRules) if r.type == r.NAMESPACE_RULE], default=-1) + 1
         full = self.pool == 'full'
         out = []
+        if self.pool == 'forms':
+            for p in PREFIXES:
+                for u in URIS:
+                    out.append(('ns_set', p, u))
+                out.append(('ns_del', p))
+            first = next((i for i, r in enumerate(A.cssRules) if r.type == r.STYLE_RULE), None)
+            if first is not None:
+                for route, form in WRITE_FORMS:
+                    for key in FORM_SEL:
+                        out.append(('write', first, route, form, key))
+                if st.slot is None:
+                    out.append(('detach', first))
+            if st.slot is not None:
+                out.append(('attach', 'A'))
+                out.append(('attach', 'B'))
+            return out
         for p in PREFIXES:
             for u in URIS:
                 out.append(('ns_set', p, u))
@@ -458,6 +522,8 @@ class Model:
             A.cssRules[op[1]].selectorText = op[2]
         elif k == 'append_sel':
             A.cssRules[op[1]].selectorList.appendSelector(op[2])
+        elif k == 'write':
+            write(A.cssRules[op[1]], op[2], op[3], op[4])
         elif k == 'rename':
             ns_rules(A)[op[1]].prefix = op[2]
         elif k == 'ns_text':
@@ -554,6 +620,30 @@ class Model:
                     st.expected[id(r)] = pairset([want])
                 elif id(r) in st.expected:
                     st.expected[id(r)] = pairset(list(st.expected[id(r)]) + [want])
+        elif k == 'write':
+            r = A.cssRules[op[1]]
+            route, form, key = op[2], op[3], op[4]
+            was = pre['selpairs'].get(id(r), [])
+            now = [tuple(pairs_of(sel)) for sel in r.selectorList]
+            how = f'{route} = ({key!r}, {PRIVATE})' if form == 'ns' else f'{route} = {key!r}'
+            try:
+                want = expect_pairs(key, eff or {})
+            except Undeclared as u:
+                want = None
+                note['undeclared'] = str(u)
+                if [x for x in now if x not in was]:      # a selector that was not there before has been taken
+                    bad = (f'prefix {u} is not declared in the sheet ({sorted((eff or {}).items())}), yet {how} was taken: {r.selectorText!r} holds {now}'
+                           + (' (a dictionary handed along with the text does not declare anything in a sheet)' if form == 'ns' else ''))
+            if want is not None and now == was and note.get('outcome') == 'NamespaceErr':
+                note['refused_declared'] = f'all prefixes of {key!r} are declared ({sorted((eff or {}).items())}), yet {how} was refused with NamespaceErr'
+            if want is not None and note.get('outcome') == 'accepted' and id(r) in st.expected:
+                # the selectors the route leaves alone keep the pairs they held before the operation
+                if route in WHOLE:
+                    st.expected[id(r)] = pairset([want])
+                elif route in FIRST:
+                    st.expected[id(r)] = pairset([want] + [list(x) for x in was[1:]])
+                else:
+                    st.expected[id(r)] = pairset([want] + [list(x) for x in was])
         elif k == 'sheet_text_refused' and any(id(r) not in pre['ids'] for r in style_rules(A)):
             rules = [r for r in style_rules(A) if id(r) not in pre['ids']]
             for r in rules:
@@ -580,6 +670,7 @@ class Model:
         A = st.A
         rules = style_rules(A) + style_rules(st.B) + ([st.slot] if st.slot is not None and st.slot.typeString == 'STYLE_RULE' else [])
         return {'effA': as_dict(effective(A)), 'ids': {id(r) for r in rules}, 'pairs': {id(r): rule_pairs(r) for r in rules}, 'textA': self._text(A),
+                'selpairs': {id(r): [tuple(pairs_of(sel)) for sel in r.selectorList] for r in rules},
                 'mapA': mapping(A), 'mapB': mapping(st.B), 'nsclass': type(A.namespaces).__name__, 'keep': rules,
                 'kinds': [r.typeString for r in A.cssRules], 'nsA': [(r.prefix, r.namespaceURI) for r in ns_rules(A)],
                 'slot_kind': st.slot.typeString if st.slot is not None else None,
@@ -604,7 +695,7 @@ class Model:
     def apply(self, st, op):
         pre = self._pre(st)
         note = {}
-        self._guarded(st, op, note)
+        note['outcome'] = self._guarded(st, op, note)
         self._write_oracle(st, op, note, pre)
         st.keep.append(pre['keep'])
 
@@ -701,6 +792,10 @@ class Model:
                     out[name].add('collision')
         if pre['nsclass'] == '_SimpleNamespaces' or type(st.A.namespaces).__name__ == '_SimpleNamespaces':
             out['A'].add('parse-state')
+        if k == 'write' and op[2] == 'rule.cssText' and not cssutils_raising() and note.get('undeclared') and op[1] < len(st.A.cssRules):
+            r = st.A.cssRules[op[1]]
+            if r.typeString == 'STYLE_RULE' and len(r.selectorList) == 0 and pre['selpairs'].get(id(r)):
+                out['A'].add('csstext-emptied')
         target = {'add_sel_obj': 'A', 'move': 'B', 'back': 'A'}.get(k) or (op[1] if k == 'attach' else None)
         if target and outcome == 'accepted':
             declared = {u for _, u in pre['map' + target]}
@@ -839,6 +934,7 @@ CONSEQ['parse-state'] = ('C15-refused-sheet-text-leaves-parse-state', ('the name
                                                                           'every namespace URI used', 'the serialisation declares the same mapping',
                                                                           'the serialisation re-resolves to the same pairs', 'a selector using an undeclared prefix',
                                                                           'the last declaration of a URI wins'))
+CONSEQ['csstext-emptied'] = ('C15-logging-rule-csstext-empties-selectors', ('every selector keeps its', 'the serialisation re-resolves to the same pairs'))
 SPELLING = {'any-written-as-none': 'C15-any-namespace-written-as-none', 'attribute-in-default-namespace': 'C15-attribute-in-default-namespace'}
 
 
@@ -862,7 +958,7 @@ def classify(clause, op, pre, info):
         return 'C15-detached-stale-prefix-snapshots'
     if clause.startswith('the serialisation re-resolves') and info.get('spelling'):
         return SPELLING[info['spelling']]
-    for root in ('parse-state', 'setprefix', 'refused-leftover', 'nstext', 'collision', 'attach'):
+    for root in ('csstext-emptied', 'parse-state', 'setprefix', 'refused-leftover', 'nstext', 'collision', 'attach'):
         if root in roots:
             kid, clauses = CONSEQ[root]
             if any(clause.startswith(c) for c in clauses):
@@ -870,7 +966,7 @@ def classify(clause, op, pre, info):
     return None
 
 
-MODEL = {'core': Model('core'), 'full': Model('full')}
+MODEL = {'core': Model('core'), 'full': Model('full'), 'forms': Model('forms')}
 
 
 # ---- concrete witnesses of the recorded findings (True while the defect is still there)
@@ -986,7 +1082,20 @@ def _w_stale_snapshots():
     return r.selectorText == 'p|e, p|f' and [pairs_of(x) for x in r.selectorList] == [[('urn:a', 'e')], [('urn:b', 'f')]]
 
 
+def _w_csstext_emptied():
+    import cssutils
+    s = _parse('@namespace p "urn:a"; p|e { left: 0 }')
+    old = cssutils.log.raiseExceptions
+    cssutils.log.raiseExceptions = False
+    try:
+        s.cssRules[1].cssText = 'q|f { top: 0 }'
+    finally:
+        cssutils.log.raiseExceptions = old
+    return len(s.cssRules) == 2 and len(s.cssRules[1].selectorList) == 0 and s.cssRules[1].style.cssText == 'top: 0'
+
+
 WITNESS = {
+    'C15-logging-rule-csstext-empties-selectors': _w_csstext_emptied,
     'C15-detached-stale-prefix-snapshots': _w_stale_snapshots,
     'C15-mapping-delete-wrong-index': _w_delete_wrong_index,
     'C15-rebind-prefix-silently-dropped': _w_rebind_dropped,
@@ -1017,6 +1126,25 @@ def known_witnesses(ctx):
         cssutils.ser.prefs.useDefaults()
 
 
+def via_bound():
+    return (f'; selector provenance: every style rule of the seed sheet re-written before the history starts through one of {len(ROUTES)} DOM routes '
+            f'({", ".join(ROUTES)}), with the text alone or - where the setter documents it ({len(PAIR_ROUTES)} routes) - as the pair (text, {PRIVATE}), '
+            'a dictionary that contradicts the sheet; '
+            'detached-rule clauses (carried declarations, structural reading and reparse of the rule text) evaluated on the slot after every step')
+
+
+def forms_label(depth, nseeds):
+    return (f'C15 forms pool, sequences <= {depth} on {nseeds} seed sheets: mapping edits (namespaces[p] = uri, del namespaces[p]) and every selector-writing route x '
+            f'argument form x selector as operations ({len(WRITE_ROUTES)} routes: {", ".join(WRITE_ROUTES)}; text alone or pair with a contradicting dictionary; '
+            f'selectors {", ".join(FORM_SEL)}), detach / attach of the written rule')
+
+
+def forms_bound():
+    return (f'; writes go to the first style rule of sheet A (first selector for Selector.selectorText and item assignment); {len(WRITE_FORMS)} route x form '
+            f'combinations (item assignment documents no pair form) x {len(FORM_SEL)} selector texts; the pair form always carries the one dictionary {PRIVATE}; '
+            'a Selector OBJECT as argument (appendSelector / item assignment) is outside the bound')
+
+
 def sequences(ctx):
     from bounded import histories
     S = SEEDS
@@ -1028,18 +1156,20 @@ def sequences(ctx):
                           label='C15 core pool, sequences <= 3 (default namespace + @media; two prefixes, *| and |, comment ahead; logging mode)')
         histories.explore(ctx, 'bounded.c15', 'full', [S[2], S[3], S[4]], 2, label='C15 full pool, sequences <= 2 on the larger seed sheets')
         histories.explore(ctx, 'bounded.c15', 'core', via_seeds([S[1], S[2], S[3]]), 2,
-                          label=f'C15 core pool, sequences <= 2 on seed sheets whose selectors were written through the DOM (3 sheets x {len(ROUTES)} routes: {", ".join(ROUTES)})')
-        ctx.bounded[-1]['bound'] += (f'; selector provenance: every style rule of the seed sheet re-written through one of {len(ROUTES)} DOM routes before the history starts; '
-                                     'detached-rule clauses (carried declarations, structural reading and reparse of the rule text) evaluated on the slot after every step')
+                          label=f'C15 core pool, sequences <= 2 on seed sheets whose selectors were written through the DOM (3 sheets x {len(VIAS)} ways: {", ".join(VIAS)})')
+        ctx.bounded[-1]['bound'] += via_bound()
+        histories.explore(ctx, 'bounded.c15', 'forms', [S[1], S[2], S[3], S[4]], 2, label=forms_label(2, 4))
+        ctx.bounded[-1]['bound'] += forms_bound()
     else:
         histories.explore(ctx, 'bounded.c15', 'full', [S[0], S[1]], 4, label='C15 full pool of namespace operations, sequences <= 4 (empty sheet; one prefix, one namespaced rule)',
                           samples=sample)
         histories.explore(ctx, 'bounded.c15', 'full', [S[2], S[3], S[4]], 3, unmerged_depth=2, label='C15 full pool, sequences <= 3 on the larger seed sheets')
         histories.explore(ctx, 'bounded.c15', 'core', [S[2], S[3], S[4]], 4, label='C15 core pool, sequences <= 4 on the larger seed sheets')
         histories.explore(ctx, 'bounded.c15', 'core', via_seeds([S[1], S[2], S[3], S[4]]), 3,
-                          label=f'C15 core pool, sequences <= 3 on seed sheets whose selectors were written through the DOM (4 sheets x {len(ROUTES)} routes: {", ".join(ROUTES)})')
-        ctx.bounded[-1]['bound'] += (f'; selector provenance: every style rule of the seed sheet re-written through one of {len(ROUTES)} DOM routes before the history starts; '
-                                     'detached-rule clauses (carried declarations, structural reading and reparse of the rule text) evaluated on the slot after every step')
+                          label=f'C15 core pool, sequences <= 3 on seed sheets whose selectors were written through the DOM (4 sheets x {len(VIAS)} ways: {", ".join(VIAS)})')
+        ctx.bounded[-1]['bound'] += via_bound()
+        histories.explore(ctx, 'bounded.c15', 'forms', [S[1], S[2], S[3], S[4]], 3, label=forms_label(3, 4))
+        ctx.bounded[-1]['bound'] += forms_bound()
 
 
 def random_walks(ctx):
